@@ -1,4 +1,5 @@
 """C01 - a command never touches a plug the user did not name (DESIGN §5 C01)"""
+import re
 import os, sys, json, subprocess
 from concurrent.futures import ThreadPoolExecutor
 import vlib, pmgen, pmsim
@@ -19,8 +20,19 @@ def gen_requests(rng, cfg, n, words):
     reqs = []
     for _ in range(n):
         word = rng.choice(words)
-        mode = rng.choice(["all", "onedev", "onedev-minus1", "single", "subset", "subset", "dup", "two-devs-partial"])
-        if mode == "all":
+        mode = rng.choice(["all", "onedev", "onedev-minus1", "single", "subset", "subset", "dup", "two-devs-partial", "repad"])
+        if mode == "repad":
+            # names that differ from configured nodes ONLY in the zero padding of the numeric suffix (n3 / n003 for n03): they are not
+            # nodes, nothing may be selected for them
+            def repad(x):
+                m = re.match(r"^(.*?)(\d+)$", x)
+                if not m: return x + "0"
+                pfx, num = m.group(1), m.group(2)
+                cands = [pfx + num.lstrip("0") if num.lstrip("0") not in ("", num) else None, pfx + "0" + num, pfx + "00" + num]
+                cands = [c for c in cands if c and c not in nodes]
+                return rng.choice(cands) if cands else x + "0"
+            t = [repad(x) for x in rng.sample(nodes, rng.randint(1, min(3, len(nodes))))] + ([rng.choice(nodes)] if rng.random() < 0.5 else [])
+        elif mode == "all":
             t = list(nodes)
         elif mode == "onedev":
             t = list(bydev[rng.choice(cfg.devs).name])
@@ -175,6 +187,15 @@ def whole_path(ctx, V):
 
     def gen(rng, style="healthy"):
         sc = pmcheck.gen_scenario(rng, style=style)
+        if rng.random() < 0.4:
+            # ranged scripts that command each plug separately inside a foreachplug (the shape of several shipped specifications): the
+            # plugs a foreach visits must be the targeted ones for EVERY ranged command, not only on / off
+            for d in sc.cfg.devs:
+                for k in d.kinds:
+                    base = k[:-len("_ranged")]
+                    if k.endswith("_ranged") and base in ("on", "off", "cycle", "reset", "beacon_on", "beacon_off"):
+                        d.bodies[k] = 'foreachplug {\n\t\t\t%s\n\t\t}' % pmgen.script_text(base).replace("\n\t\t", "\n\t\t\t")
+            sc.tags["perplug"] = True
         nodes = sc.cfg.all_nodes()
         pairs = [(a, b) for a in nodes for b in nodes if b.startswith(a) and len(b) == len(a) + 1]
         r = rng.random()
